@@ -58,3 +58,31 @@ pub fn intern(names: &[Vec<u8>]) -> Vec<usize> {
         })
         .collect()
 }
+
+/// Two threads intern `names[0]` and `names[1]`; `schedule` lists which thread takes its next step
+/// (`lookup`, then `insert_new` if the lookup missed). Both steps are atomic under the table's lock,
+/// so running them in schedule order on one thread reproduces that interleaving. Returns the two ids.
+pub fn intern_schedule(
+    names: [&[u8]; 2],
+    is_extended: bool,
+    schedule: &[usize],
+) -> [Option<usize>; 2] {
+    let table = SymbolTable::default();
+    let names = [Latin1String::new(names[0]), Latin1String::new(names[1])];
+    let mut missed = [false, false];
+    let mut result = [None, None];
+    for &thread in schedule {
+        if result[thread].is_some() {
+            continue;
+        }
+        if !missed[thread] {
+            match table.lookup(&names[thread]) {
+                Some(symbol) => result[thread] = Some(symbol.id),
+                None => missed[thread] = true,
+            }
+        } else {
+            result[thread] = Some(table.verif_hooks_insert_new(&names[thread], is_extended).id);
+        }
+    }
+    result
+}
